@@ -45,7 +45,7 @@ CLAIMS = {
   "text": "Derives, from the type-checked source, the byte layout of every box/record emitted in every configuration (if/match kept as alternatives, loops as repetitions) and compares it field by field with transcriptions of ISO/IEC 14496-12/-14/-15 and the AV1/VP9/Opus bindings: "
           "size, version/flags, reserved bits, constants, field positions, source of each value field, counted tables, length-prefixed parameter sets, descriptor lengths, track IDs vs next_track_ID. Symbolic, hence for all dimensions/rates/parameter sets. "
           "Found 9 genuine layout defects on the pinned tree: 2 repaired, 7 recorded (pinned by the golden fixture or not small). Also: hvcC profile byte identity, AAC samplingFrequencyIndex table, av1C flag bits (shared with C07.R7/R8)."
-          " Also: esds descriptor structure (ES > DecoderConfig > DecoderSpecificInfo, SLConfig), hdlr name NUL-terminated, ftyp brands, avcC profile bytes = SPS bytes 1..3, dOps version/channel count/mapping table.",
+          " Also: esds descriptor structure (ES > DecoderConfig > DecoderSpecificInfo, SLConfig), hdlr name NUL-terminated, ftyp brands, avcC profile bytes = SPS bytes 1..3, dOps version/channel count/mapping table; hvcC numOfArrays equals the arrays that follow (optional VPS array included); the builder's fragment configuration fixes the 90 kHz media timescale.",
   "note": "Trusted: my transcription of the specifications (lib/mx/spec.py) and the interpreter. Value-level packing (language code, profile bytes) is not decided."},
  "C01": {
   "technique": "layout interpretation of typed HIR: symbolic file productions of both finalize functions (offset lists, schedule permutation, tables, moov) + MIR monotone-field analysis",
@@ -81,14 +81,14 @@ CLAIMS = {
           "success exits lie on the not-finished edge; the internal->public error conversion equals the documented table; sibling video entry points maintain each other's monotonicity state (defect found and repaired); ADTS/Opus validators are guarded on the frame bytes / codec arm."
           " R7: encode_video's own keyframe decision is tabulated over all 256 NAL header bytes (1- and 2-NAL frames) by finite-domain interpretation of the dumped MIR and must equal the codec module's public classifier (H.264, H.265)."
           " R8: ADTS acceptance table (every header field over all its values, every short length) by finite-domain interpretation. R9: the VP9 keyframe classifier and configuration extractor accept the same frame-header and marker bytes."
-          " R10: finish refuses only when already finished, on a sink failure or on a 32-bit size limit (all error exits / `?` of the finalisation tree). R11: parameter sets are found wherever they stand in the first keyframe (C07.R13 instances).",
+          " R10: finish refuses only when already finished, on a sink failure or on a 32-bit size limit (all error exits / `?` of the finalisation tree). R11: parameter sets are found wherever they stand in the first keyframe (C07.R13 instances). R4 also: a state field read by any entry's rejection guard and maintained by one video entry is maintained by its sibling.",
   "note": "Table transcribed from docs/contract.md and the property statement (lib/mx/rules/c04.py TABLE). NaN/sub-tick behaviour of f64 comparisons is value-level and not decided. Consuming finish() is a type-level fact (thorough-tier witness)."},
  "C07": {
   "technique": "layout interpretation (stsd selection, records) + HIR evaluation of writer/builder functions + MIR guard extraction for parameter-set slots; read-program extraction vs specification syntax; complete finite-domain tabulation of bit-reader / slot tables (interpretation of the dumped MIR, nothing executed)",
   "text": "Sample-entry type is selected by the config variant, the variant is built from the configured codec by the matching extractor, fall-backs and the fragmented selection chain are checked per codec; every parameter-set slot receives the iterated NAL unit itself, only while empty and only for the spec's NAL type constant (7/8, 32/33/34); "
           "audio entry fields and the AudioSpecificConfig/dOps derive from the one audio configuration; av1C/vpcC field bytes are values of the parsed configuration. Two genuine defects recorded (zero-frame non-H.264 fall-back to avc1; constant fragmented av1C fields). R7-R9: hvcC profile/tier/level bytes are the identity function of the SPS bytes they summarise (all 256 values of the extracted builder+accessor expression); AAC samplingFrequencyIndex match table == ISO/IEC 14496-3 table 1.18; av1C flag bits per configuration field; the AV1 sequence-header parser's read program (transcribed from typed HIR) reads the same bit widths in the same order and yields the same configuration values as a transcription of AV1 spec 5.5.1-5.5.5 on every enumerated syntax path (about 2700 paths)."
           " R10: offset-passing header parsers (VP9) read consecutive fields - every read starts at the offset returned by the read before it on every path (provenance abstract interpretation)."
-          " R11: VP9 byte-packed fields occupy disjoint non-empty bit ranges. R12: AV1 bit reader primitives and uvlc tabulated against f(n)/uvlc(). R13: parameter-set slots by NAL header byte (256 values, first wins). R7/R8 also cover the init segment's hvcC/av1C.",
+          " R11: VP9 byte-packed fields occupy disjoint non-empty bit ranges. R12: AV1 bit reader primitives and uvlc tabulated against f(n)/uvlc(). R13: parameter-set slots by NAL header byte (256 values, first wins). R7/R8 also cover the init segment's hvcC/av1C. R14: parse_obu_header tabulated over all 256 header bytes against AV1 5.3.",
   "note": "Not decided: bit-level correctness of the AV1 sequence-header and VP9 header parsers (value-level). Shares the record-layout instances with C19."},
  "C09": {
   "technique": "layout interpretation: enumeration of the audio trak production for a track-start offset mechanism",
